@@ -122,7 +122,7 @@ def run(tier, replay=None):
         cres = run_tlc("Gen_Conform", cfg="Gen_Conform", simulate=(30 if tier == "quick" else 600), depth=10, workers=4, seed_=seed() * 59 + 4)
         texts += list(dict.fromkeys(c["text"] for c in cres.tagged("CASE"))) + corpus.SHARED_PROGRAMS
         texts += list(corpus.all_programs().values()) + corpus.VALUE_PROGRAMS + corpus.LOOP_PROGRAMS
-        texts += shared_programs(tier, out, part=4)
+        texts += shared_programs(tier, out, part=4) + corpus.EXIT_PROGRAMS
         texts = list(dict.fromkeys(texts))
         texts += [json.dumps(f, sort_keys=True) for f in corpus.TWIN_FILES]      # multi-file inputs travel as JSON text
 
